@@ -351,17 +351,37 @@ def run_scenario(sc: dict) -> dict:
                     rid[0] += 1
                     r = rid[0]
                     cmds.append(cmd_descriptor(sc, step, addr))
-                    loop.rec("CALL", c=ci, r=r)
-                    try:
-                        resp = await cmd.execute(protocol)
-                        loop.rec("RET", c=ci, r=r, out="ok", data=bytes(resp.raw_data),
-                                 pl=bytes(resp.response_data()))
-                    except asyncio.CancelledError as e:
-                        loop.rec("RET", c=ci, r=r, out="raise", exc="CancelledError", fam=False)
-                    except Exception as e:  # noqa
-                        out, msg = classify_exc(e)
-                        loop.rec("RET", c=ci, r=r, out=out, exc=type(e).__name__,
-                                 fam=isinstance(e, InverterError), msg=msg)
+
+                    async def one(cmd=cmd, r=r, step=step):
+                        loop.rec("CALL", c=ci, r=r)
+                        if "cancel_after" in step:
+                            # the user of the library cancels the task that runs this request (task.cancel(), wait_for)
+                            me = asyncio.current_task()
+
+                            def do_cancel():
+                                if not me.done():
+                                    loop.rec("UCANCEL", c=ci, r=r)
+                                    me.cancel()
+                            loop.call_later(step["cancel_after"] * TICK, do_cancel)
+                        try:
+                            resp = await cmd.execute(protocol)
+                            loop.rec("RET", c=ci, r=r, out="ok", data=bytes(resp.raw_data),
+                                     pl=bytes(resp.response_data()))
+                        except asyncio.CancelledError as e:
+                            loop.rec("RET", c=ci, r=r, out="cancelled" if "cancel_after" in step else "raise",
+                                     exc="CancelledError", fam=False)
+                        except Exception as e:  # noqa
+                            out, msg = classify_exc(e)
+                            loop.rec("RET", c=ci, r=r, out=out, exc=type(e).__name__,
+                                     fam=isinstance(e, InverterError), msg=msg)
+                    if "cancel_after" in step:
+                        # only then the request runs in a task of its own (the other families are left as they were)
+                        try:
+                            await asyncio.ensure_future(one())
+                        except asyncio.CancelledError:
+                            pass
+                    else:
+                        await one()
 
         async def main():
             tasks = [asyncio.ensure_future(caller(i + 1, c)) for i, c in enumerate(callers)]
